@@ -168,6 +168,40 @@ def run(R, tier, seed, driver_ok):
             if got.shape != want.shape or not np.array_equal(got, want):
                 R.violation('indices-vs-formed', f'{name}: pair_distance(indices via {kind} preprocessor) != pair_distance(formed)',
                             {'est': name, 'kind': kind, 'idx': idx, 'pool': pool, 'L': est.components_})
+    # ---- all views agree on INDICATOR input too, also after the preprocessor parameter was replaced without a refit
+    #      (whichever array the estimator then resolves indicators with, every view must resolve them with the same one)
+    import warnings as _w
+    for name in names:
+        d = int(rng.randint(2, 5))
+        X, y = zoo.blobs(rng, d, 3, 7)
+        prm = zoo.fix_params(name, zoo.default_params(name, rng, d), X, y)
+        if name.startswith('SDML'):
+            prm['balance_param'] = 1e-7
+        try:
+            with _w.catch_warnings():
+                _w.simplefilter('ignore')
+                ia, fa = zoo.fit_args(name, X, y, rng, indices=True)
+                est = zoo.CLASSES[name](preprocessor=X, **prm).fit(*ia)
+        except RuntimeError:
+            if name.startswith('SDML'):
+                continue
+            raise
+        for stage in ('after-fit', 'after-set_params'):
+            if stage == 'after-set_params':
+                est.set_params(preprocessor=X[::-1] * 2.0 + 1.0)
+            ii = rng.randint(0, len(X), size=(7, 2))
+            R.case(('c02-idxviews', name, stage, X.tobytes().hex()[:32]), True, branch=f'indicator-views-{stage}')
+            with _w.catch_warnings():
+                _w.simplefilter('ignore')
+                dist = est.pair_distance(ii)
+                Ta, Tb = est.transform(ii[:, 0]), est.transform(ii[:, 1])
+                sc = est.pair_score(ii)
+                sp = est.score_pairs(ii)
+            emb = np.sqrt(((Ta - Tb) ** 2).sum(1))
+            tol = REL * max(1.0, np.linalg.norm(est.components_)) * (1.0 + emb.max())
+            if np.abs(dist - emb).max() > tol or not np.array_equal(sc, -dist) or not np.array_equal(sp, dist):
+                R.violation(f'indicator-views/{stage}', f'{name}: on indicator pairs ({stage}) pair_distance {dist[:3]} vs ‖transform(i) − transform(j)‖ {emb[:3]} (pair_score / score_pairs must be ∓ the same numbers)',
+                            {'est': name, 'stage': stage, 'idx': ii, 'L': est.components_})
     if driver_ok and lines:
         outs = lean_run(lines)
         for o, (what, impl, scale, case) in zip(outs, meta):
